@@ -743,7 +743,7 @@ Theorem infallible_getter_total : forall d f name p,
                 ev_num v <= 2 ^ (field_width f - 1) - 1) ->
   exists x, getter d f p = Ok x.
 Proof.
-  intros d f name p Hacc Hch Hp Hlit. unfold getter. rewrite Hch.
+  intros d f name p Hacc Hch Hp Hlit. unfold getter, getter_with. rewrite Hch.
   destruct (resolve (emitted_enums d) name) as [ee|] eqn:Er; [|eauto].
   unfold conv_choice in Hch.
   destruct (f_conv f) as [c|]; [|destruct (f_base f); discriminate].
